@@ -77,6 +77,8 @@ type Ctx struct {
 	declIndex map[*types.Func]*ast.FuncDecl
 	filePkg   map[*ast.File]*packages.Package
 	xb        *xbuilder
+	posCtx     *Ctx
+	readerSide map[*ssa.Function]bool
 }
 
 func (c *Ctx) pos(p token.Pos) string {
